@@ -208,4 +208,33 @@ jobs:
     steps:
       - run: echo
 `,
+	// ---- variant 2: positions that the parser / rule never hand to the
+	// expression checker (DESIGN.md Appendix A #2-#4, findings of C03); the
+	// availability verdict demanded there is the same as everywhere else
+	`on:
+  workflow_call:
+    inputs:
+      cin:
+        type: string
+        required: «on.workflow_call.inputs.required»
+    secrets:
+      csec:
+        required: «on.workflow_call.secrets.required»
+jobs:
+  j1:
+    runs-on: ubuntu-latest
+    strategy:
+      matrix:
+        row: [a, b]
+        include:
+          - «jobs.strategy.matrix.include-elem-expr»
+    container:
+      image: alpine:3
+      ports:
+        - «jobs.container.ports-with-volumes»
+      volumes:
+        - /a:/b
+    steps:
+      - run: echo
+`,
 }
